@@ -235,7 +235,7 @@ class C08(Check):
                  S.BATCHGATE(K), S.BATCH_DIRECT(K), S.GATE(K), S.GATE_NONE(K), S.GRPBATCH(K), S.GRP_BLOCKED(K),
                  S.FANFAIL(2), S.GRPIN(K), S.REGRADE(K), S.FANGATE(2), S.REENT(K), S.REENT(K, src_cycle=1), S.GRP2(K, horizon=hg),
                  S.NEST_MID(K, horizon=hg), S.NEST_OUT(K, horizon=hg), S.BLOCK(K), S.BATCH(K), S.REWIRE(K), S.REWIRE2(K + 1), S.GATEGRP(K),
-                 S.GRPPASS(K), S.NEST_PASS(K), S.FANTOGGLE(K), S.FANOUT(K + 1), S.BLOCK0(K)]
+                 S.GRPPASS(K), S.NEST_PASS(K), S.FANTOGGLE(K), S.FANOUT(K + 1), S.BLOCK0(K), S.FANFLOW(K)]
         return _line_jobs(specs, ['route'], tier) + _line_jobs([S.NESTBATCH(K)], ['route', 'nesthistory'], tier) + topo_jobs(['route'], tier)
 
 
